@@ -2,12 +2,12 @@
    Statements only; models in Incl/InclModel.v (classification) and Incl/TouchModel.v (the touch tests in binary64 / DPE /
    truncated multiprecision arithmetic, run against the real functions on every check), proofs in Incl/InclGeom.v,
    Incl/InclProps.v, Incl/TouchProps.v (axis tests, f and d), Incl/TouchMp.v (mpf_get_rdpe, multiprecision axis tests),
-   Incl/TouchUnitReal.v + Incl/TouchUnitD.v (unit-circle test, DPE). *)
+   Incl/TouchUnitReal.v + Incl/TouchUnitD.v / Incl/TouchUnitF.v (unit-circle test, DPE / binary64 incl. cplx_mod). *)
 From Coq Require Import ZArith Reals Lra Lia List Bool Arith.
 From Flocq Require Import Core BinarySingleNaN.
 Require Import MPSV.Dpe.DpeDefs MPSV.Dpe.DpeModel.
 Require Import MPSV.Incl.InclModel MPSV.Incl.InclGeom MPSV.Incl.InclProps MPSV.Incl.TouchModel MPSV.Incl.TouchExch MPSV.Incl.TouchProps.
-Require Import MPSV.Incl.TouchMp MPSV.Incl.TouchUnitReal MPSV.Incl.TouchUnitD.
+Require Import MPSV.Incl.TouchMp MPSV.Incl.TouchUnitReal MPSV.Incl.TouchUnitD MPSV.Incl.TouchUnitF.
 Import ListNotations.
 Local Open Scope R_scope.
 
@@ -308,6 +308,70 @@ Proof.
   unfold rval. cbn [mnt esp]. rewrite MPSV.Dpe.DpeProps.B2R_fhalf. change (/ 2) with (bpow radix2 (-1)). rewrite <- bpow_plus.
   apply bpow_le. lia.
 Qed.
+
+(* --- cplx_mod (floating-point/mt.c, the MPS_USE_BUILTIN_COMPLEX version mt.h always selects) in IEEE binary64: for finite
+       parts, whenever the result does not overflow, it is within 6 u |z| + 2^-1075 of |z| (u = 2^-53; five roundings; underflow of
+       the quotient and of its square included).  fmod2 x y = sqrt (x^2 + y^2), eta64 = 2^-1075. *)
+Theorem C08_cplx_mod_error : forall x y : b64, is_finite x = true -> is_finite y = true ->
+  is_finite (cplx_mod_f x y) = true ->
+  0 <= B2R (cplx_mod_f x y) /\ Rabs (B2R (cplx_mod_f x y) - fmod2 x y) <= 6 * u53 * fmod2 x y + eta64.
+Proof. exact cplx_mod_f_spec. Qed.
+Print Assumptions C08_cplx_mod_error.
+
+(* --- mps_ftouchunit as coded (DBL_MAX / n guard, n * frad, cplx_mod, the two rounded sums): for every factor n >= 2 (the code
+       passes 2 * degree), finite centre and radius >= 0 and a modulus that does not overflow, `no touch' puts the closed disc
+       D(z, r) strictly on one side of the unit circle AND the side tests of mps_fupdate_inclusions (cplx_mod (z) < 1, > 1) name
+       that side - under the weakest hypothesis that is true of the code: NOT (r < 2^-49 and | |z| - 1 | < 2^-48).  Inside that
+       corner C08_ftouchunit_refuted below (r = 2^-56).  An overflowing n * frad or sum compares as +infinity (touch). *)
+Theorem C08_ftouch_unit_sound : forall (n : Z) (r x y : b64),
+  (2 <= n < 2 ^ 31)%Z -> is_finite r = true -> is_finite x = true -> is_finite y = true -> 0 <= B2R r ->
+  is_finite (cplx_mod_f x y) = true ->
+  bpow radix2 (-49) <= B2R r \/ bpow radix2 (-48) <= Rabs (fmod2 x y - 1) ->
+  ftouch_unit n r x y = false ->
+  (B2R r + 1 < fmod2 x y /\ flt (cplx_mod_f x y) fone = false /\ fgt (cplx_mod_f x y) fone = true) \/
+  (fmod2 x y + B2R r < 1 /\ flt (cplx_mod_f x y) fone = true /\ fgt (cplx_mod_f x y) fone = false).
+Proof. exact ftouch_unit_sound. Qed.
+Print Assumptions C08_ftouch_unit_sound.
+
+Theorem C08_ftouch_unit_sound_scaled : forall (n : Z) (r x y : b64),
+  (2 <= n < 2 ^ 31)%Z -> is_finite r = true -> is_finite x = true -> is_finite y = true ->
+  is_finite (cplx_mod_f x y) = true ->
+  bpow radix2 (-49) <= B2R r ->
+  ftouch_unit n r x y = false ->
+  (IZR (n - 1) * B2R r + 1 < fmod2 x y /\ flt (cplx_mod_f x y) fone = false /\ fgt (cplx_mod_f x y) fone = true) \/
+  (fmod2 x y + IZR (n - 1) * B2R r < 1 /\ flt (cplx_mod_f x y) fone = true /\ fgt (cplx_mod_f x y) fone = false).
+Proof. exact ftouch_unit_sound_scaled. Qed.
+Print Assumptions C08_ftouch_unit_sound_scaled.
+
+(* z = 2 + 2i, r = 1/2, n = 2: clear (outside);  z = 0, r = 1/8, n = 2: clear (inside);  z = 2, r = 1/2, n = 2: tangent, touch *)
+Example C08_ftouch_unit_nonvacuous :
+  ftouch_unit 2 fhalf ftwo ftwo = false /\ ftouch_unit 2 (f_of_dyadic 1 (-3)) fzero fzero = false /\
+  ftouch_unit 2 fhalf ftwo fzero = true /\ is_finite (cplx_mod_f ftwo ftwo) = true /\ bpow radix2 (-49) <= B2R fhalf.
+Proof.
+  split; [vm_compute; reflexivity|]. split; [vm_compute; reflexivity|]. split; [vm_compute; reflexivity|].
+  split; [vm_compute; reflexivity|]. rewrite MPSV.Dpe.DpeProps.B2R_fhalf. change (/ 2) with (bpow radix2 (-1)). apply bpow_le. lia.
+Qed.
+
+(* --- PARTIAL: mps_mtouchunit.  The decision on the DPE ab ~ |z| - 1 (rdpe_mul_d, rdpe_lt, rdpe_neg_eq, rdpe_ge: the code of
+       /repo after fixes/C08_munit_tangent.patch) is proved: if ab is within delta of |z| - 1 and delta <= (n (1 - u) - 1) r,
+       `no touch' is right for the disc D(z, r) itself and the sign of ab names the side.  Missing: a bound for delta, the error
+       of mpc_mod (two products, a sum, a square root truncated at max (mpwp, precision of the number)), mpf_sub_ui and the 53-bit
+       truncation of mpf_get_rdpe (C08_mpf_get_rdpe_spec): about 4 * 2^-precision * |z| + 2^-52 * | |z| - 1 |; for radii below
+       that the answer is wrong (known finding C08_munit_modulus_truncation, r = 0). *)
+Theorem C08_mtouch_unit_sound_partial : forall (n : Z) (r ab : rdpe) (Zm delta : R),
+  (2 <= n < 2 ^ 31)%Z -> normalised r -> 0 <= rval r -> (LONG_MIN + 3000 <= esp r <= LONG_MAX - 3000)%Z ->
+  normalised ab -> in_long (esp ab) ->
+  Rabs (rval ab - (Zm - 1)) <= delta -> delta <= (IZR n * (1 - u53) - 1) * rval r ->
+  mtouch_unit_ab_ge n r ab = false ->
+  (rval r + 1 < Zm /\ 0 < rval ab) \/ (Zm + rval r < 1 /\ rval ab < 0).
+Proof. exact mtouch_unit_decision_sound. Qed.
+Print Assumptions C08_mtouch_unit_sound_partial.
+
+(* |z| = 3/2 exactly (ab = 1/2, delta = 0), r = 1/8, n = 2: clear;  r = 1/4: tangent, touch *)
+Example C08_mtouch_unit_nonvacuous :
+  mtouch_unit_ab_ge 2 (Rdpe fhalf (-2)) (Rdpe fhalf 0) = false /\ mtouch_unit_ab_ge 2 (Rdpe fhalf (-1)) (Rdpe fhalf 0) = true /\
+  mtouch_unit_ab_ge 2 (Rdpe fhalf (-1)) (Rdpe fmhalf 0) = true /\ mtouch_unit_ab_ge 2 (Rdpe fhalf (-2)) (Rdpe fmhalf 0) = false.
+Proof. repeat split; vm_compute; reflexivity. Qed.
 
 (* --- REFUTED at the boundary: mps_mtouchunit is strict where the other two variants are not.  Radius 0 with the centre
        on the circle, and a disc tangent from inside, are declared clear (first four conjuncts / last four); with rdpe_ge
